@@ -6,6 +6,7 @@ mod lega;
 mod legc;
 mod libdump;
 mod replay;
+mod sweep;
 
 use std::path::PathBuf;
 
